@@ -140,7 +140,7 @@ func (c *Ctx) Add(k string, n int64) {
 // SetExhaustive states whether the stated space was enumerated completely.
 func (c *Ctx) SetExhaustive(b bool) { c.exhaustive, c.exhSet = b, true }
 
-// Abort makes the run end with exit 2 (machinery failure, not a violation).
+// Abort makes the run end with exit 3 (machinery failure, not a violation).
 func (c *Ctx) Abort(format string, a ...interface{}) {
 	c.mu.Lock()
 	defer c.mu.Unlock()
@@ -280,11 +280,11 @@ func (c *Ctx) Finish() int {
 	os.MkdirAll(filepath.Join(VerifDir, "evidence"), 0o755)
 	if err := os.WriteFile(filepath.Join(VerifDir, "evidence", c.ID+".json"), b, 0o644); err != nil {
 		fmt.Fprintln(os.Stderr, "cannot write evidence:", err)
-		return 2
+		return 3
 	}
 	if c.abort != "" {
 		fmt.Printf("ABORT property=%s: %s\n", c.ID, c.abort)
-		return 2
+		return 3
 	}
 	for _, l := range lines {
 		fmt.Println(l)
